@@ -258,7 +258,9 @@ fn snapshot(w: &World) -> Vec<Snapshot> {
 }
 
 impl M {
-    fn check_apply(&self, s: &St, before: &[Snapshot], before_last: Option<usize>, list: &[usize], strict_state: bool) -> Result<(), Fail> {
+    /// `reconnected`: labels of links that the housekeeping pass in front of the reload had cause to
+    /// reconnect (silent for the configured timeout): their socket is legitimately new.
+    fn check_apply(&self, s: &St, before: &[Snapshot], before_last: Option<usize>, list: &[usize], strict_state: bool, reconnected: &BTreeSet<String>) -> Result<(), Fail> {
         let w = &s.w;
         let wanted: Vec<String> = list.iter().map(|i| label_of(w, link_ip(*i))).collect();
         let wanted_set: BTreeSet<&String> = wanted.iter().collect();
@@ -283,7 +285,7 @@ impl M {
                 let Some(io) = w.conn_io.get(&c.conn_id) else {
                     return Err(Fail::new("surviving-link-lost-its-io-handle", ctx(&b.label)));
                 };
-                if !Arc::ptr_eq(&io.socket, &b.sock) {
+                if !Arc::ptr_eq(&io.socket, &b.sock) && !reconnected.contains(&b.label) {
                     return Err(Fail::new("surviving-link-socket-replaced", ctx(&b.label)));
                 }
                 if strict_state {
@@ -459,7 +461,7 @@ impl Model for M {
                         &binder,
                     ));
                 }
-                self.check_apply(s, &before, before_last, list, true)
+                self.check_apply(s, &before, before_last, list, true, &BTreeSet::new())
             }
             Ev::ReloadViaHousekeeping(i) => {
                 let list = &self.lists[i];
@@ -467,11 +469,15 @@ impl Model for M {
                 let before = snapshot(&s.w);
                 let before_last = s.w.last_selected_idx;
                 s.w.advance(1000);
+                // the same arm first runs the ordinary housekeeping pass: a link that has been silent for the
+                // configured timeout is reconnected there (new socket), which is not the reload's doing
+                let timeout = s.w.config.snapshot().conn_timeout_ms;
+                let reconnected: BTreeSet<String> = s.w.connections.iter().filter(|c| crate::sel::oracle_timed_out(c, s.w.now, timeout)).map(|c| c.label.clone()).collect();
                 s.w.arm_housekeeping(env);
                 if s.w.pending_ips.is_some() {
                     return Err(Fail::new("queued-reload-not-applied", "the housekeeping arm left the queued reload pending".into()));
                 }
-                self.check_apply(s, &before, before_last, list, false)
+                self.check_apply(s, &before, before_last, list, false, &reconnected)
             }
         }
     }
